@@ -59,7 +59,7 @@ typedef struct {
   uint8_t *buf; size_t size;         /* the caller buffer */
 } gbuf;
 
-#define MAXG 8
+#define MAXG 24
 static gbuf *active[MAXG];
 static int nactive;
 
@@ -212,6 +212,7 @@ typedef struct {
   int bits, w, h, ss, pf, pad, bu, num, den, cx, cy, cw, ch, side, ll, fast, align, sx[3];
   int ow, oh, nb;
   int wA, hA, ssA, n1, d1, same;                       /* hist: first image and first scaling factor */
+  int rgbcs;                                           /* source JPEG in RGB colorspace */
   int sx_, sy_, sw_, sh_;                              /* hist: region as stored by tj3SetCroppingRegion */
   unsigned char *jpegA; size_t jpegASize;
   cbuf b[MAXB];
@@ -239,6 +240,7 @@ static int make_jpeg(kase *k)
   /* make it less noisy so that scaled decodes are not saturated: smooth the rows a bit */
   tj3Set(h, TJPARAM_SUBSAMP, k->ss);
   tj3Set(h, TJPARAM_QUALITY, 90);
+  if (k->rgbcs) tj3Set(h, TJPARAM_COLORSPACE, TJCS_RGB);
   if (k->ll) { tj3Set(h, TJPARAM_LOSSLESS, 1); tj3Set(h, TJPARAM_PRECISION, k->bits); }
   k->jpeg = NULL; k->jpegSize = 0;
   if (k->bits <= 8) rc = tj3Compress8(h, src, k->w, 0, k->h, pf, &k->jpeg, &k->jpegSize);
@@ -768,6 +770,100 @@ static void run_rs_case(const char *line)
   tj3Free(k->jpeg);
 }
 
+/* ------------------------------------------------------------ RGB565 output through the libjpeg API */
+/* out_color_space = JCS_RGB565 (ycc / rgb / gray source, ordered dither or none), max_lines >= 2 rows per
+   jpeg_read_scanlines call, every row in its own guarded buffer that ENDS at a PROT_NONE page and starts at
+   an address = al (mod 4): al = 2 takes the PACK_NEED_ALIGNMENT branch of jdcol565.c for every row. */
+static void run_r565_case(const char *line)
+{
+  kase K, *k = &K;
+  char src[8];
+  memset(k, 0, sizeof *k);
+  gets_(line, "src", src, sizeof src);
+  strcpy(k->kind, "pk"); strcpy(k->api, "dec");
+  k->bits = 8; k->w = geti(line, "w", 1); k->h = geti(line, "h", 1); k->ss = geti(line, "ss", 0);
+  k->fast = geti(line, "fast", 0);
+  int maxl = geti(line, "max", 2), dither = geti(line, "dither", 0), al = geti(line, "al", 2);
+  if (k->ss < 0 || k->ss >= TJ_NUMSAMP || k->w < 1 || k->h < 1 || maxl < 1 || maxl > 16 || (al != 0 && al != 2)) { printf("?\n"); return; }
+  k->pf = TJPF_RGB;
+  if (!strcmp(src, "gray")) k->ss = TJSAMP_GRAY;
+  if (!strcmp(src, "rgb")) k->rgbcs = 1;
+  if (make_jpeg(k)) { printf("err %s\n", k->err); return; }
+  size_t rowbytes = (size_t)k->w * 2, e = ((rowbytes + (size_t)al) % 4) ? 2 : 0;   /* size = -al (mod 4) */
+  if (al == 2) e = (rowbytes % 4 == 2) ? 0 : 2; else e = (rowbytes % 4 == 0) ? 0 : 2;
+  gbuf g[16]; uint8_t *extra = malloc(rowbytes * XR);
+  uint8_t *mask = calloc((size_t)k->h, rowbytes);
+  JSAMPROW rows[16 + XR];
+  for (int i = 0; i < maxl; i++) { galloc(&g[i], rowbytes + e, 1); rows[i] = g[i].buf; }
+  for (int i = 0; i < XR; i++) rows[maxl + i] = extra + (size_t)i * rowbytes;
+  volatile long total = 0, over_at = -1, over_ret = 0, over_row = -1;
+  volatile int canary_bad = 0, outcome = 0, fb = -1; volatile long coff = 0, foff = 0;
+  for (int pass = 0; pass < 2 && !outcome && over_at < 0; pass++) {
+    struct jpeg_decompress_struct cinfo;
+    struct jpeg_error_mgr jerr;
+    volatile int created = 0;
+    int rc;
+    total = 0;
+    in_call = 1;
+    rc = sigsetjmp(jb, 1);
+    if (rc == 0) {
+      arm(5000);
+      cinfo.err = jpeg_std_error(&jerr);
+      jerr.error_exit = rs_error_exit; jerr.output_message = rs_output_message;
+      jpeg_create_decompress(&cinfo); created = 1;
+      jpeg_mem_src(&cinfo, k->jpeg, (unsigned long)k->jpegSize);
+      jpeg_read_header(&cinfo, TRUE);
+      cinfo.do_fancy_upsampling = !k->fast;
+      cinfo.out_color_space = JCS_RGB565;
+      cinfo.dither_mode = dither ? JDITHER_ORDERED : JDITHER_NONE;
+      jpeg_start_decompress(&cinfo);
+      while (cinfo.output_scanline < cinfo.output_height && over_at < 0) {
+        JDIMENSION at = cinfo.output_scanline, n;
+        for (int i = 0; i < maxl; i++) { memset(g[i].buf, FILL[pass], rowbytes); memset(g[i].buf + rowbytes, CANARY, e); gslack_fill(&g[i]); }
+        memset(extra, CANARY, rowbytes * XR);
+        n = jpeg_read_scanlines(&cinfo, rows, maxl);
+        total += n;
+        for (int i = 0; i < maxl; i++) {
+          long o;
+          if (!canary_bad && gslack_bad(&g[i], &o)) { canary_bad = 1; coff = o; }
+          for (size_t j = 0; j < e; j++) if (!canary_bad && g[i].buf[rowbytes + j] != CANARY) { canary_bad = 1; coff = (long)(rowbytes + j); }
+          if (i < (int)n && at + i < (JDIMENSION)k->h)
+            for (size_t j = 0; j < rowbytes; j++) if (g[i].buf[j] != FILL[pass]) mask[(at + i) * rowbytes + j] = 1;
+        }
+        for (size_t j = 0; j < rowbytes * XR; j++)
+          if (extra[j] != CANARY) { over_at = at; over_ret = n; over_row = maxl + (long)(j / rowbytes); break; }
+        if ((int)n > maxl && over_at < 0) { over_at = at; over_ret = n; over_row = -1; }
+        if (n == 0) break;
+      }
+      if (over_at < 0) jpeg_finish_decompress(&cinfo);
+    }
+    in_call = 0; arm(0);
+    if (rc == 1) {
+      outcome = 3;
+      for (int i = 0; i < maxl; i++)
+        if (fault_addr >= (uintptr_t)g[i].map && fault_addr < (uintptr_t)g[i].map + g[i].maplen) { fb = i; foff = (long)(fault_addr - (uintptr_t)g[i].buf); }
+    } else if (rc == 2) outcome = 1;
+    else if (rc == 3) outcome = 4;
+    if (created && rc != 1 && rc != 3) jpeg_destroy_decompress(&cinfo);
+  }
+  if (outcome == 3) printf("segv buf=%d off=%ld pass=0\n", (int)fb, (long)foff);
+  else if (outcome == 4) printf("hang\n");
+  else if (outcome == 1) printf("err jpeg\n");
+  else if (over_at >= 0) printf("over at=%ld max=%d ret=%ld row=%ld\n", (long)over_at, maxl, (long)over_ret, (long)over_row);
+  else {
+    size_t miss = 0;
+    for (size_t j = 0; j < (size_t)k->h * rowbytes; j++) if (!mask[j]) miss++;
+    printf("ok total=%ld rowbytes=%zu ", (long)total, rowbytes);
+    if (miss) printf("partial%zu", miss); else printf("full");
+    printf(" ; canary=");
+    if (canary_bad) printf("bad:b0@%ld", (long)coff); else printf("ok");
+    printf(" det=same\n");
+  }
+  free(extra); free(mask);
+  gfree_all();
+  tj3Free(k->jpeg);
+}
+
 /* ------------------------------------------------------------ SIMD kernels directly */
 #ifdef WITH_SIMD
 typedef unsigned char **SARR;
@@ -959,6 +1055,7 @@ int main(void)
     else if (!strncmp(line, "kern ", 5)) run_kern_case(line);
     else if (!strncmp(line, "rs ", 3)) run_rs_case(line);
     else if (!strncmp(line, "kv ", 3)) run_kv_case(line);
+    else if (!strncmp(line, "r565 ", 5)) run_r565_case(line);
     else if (!strncmp(line, "big ", 4)) run_big_case(line);
     else if (!strncmp(line, "simd", 4)) {
 #ifdef WITH_SIMD
